@@ -164,10 +164,10 @@ func finishCheck(prop, tier string, seed int64, spec PropSpec, results []jobResu
 				}
 				rf.Output = trimOut(out)
 				writeJSON(path, rf)
-				if j.Clock == "sym" && confirmConcrete(eng, jr.Cfg, v, l) {
+				if (j.Clock == "sym" || j.NoNative) && confirmConcrete(eng, jr.Cfg, v, l) {
 					// clock readings cannot be forced on the native build: the model is re-run in the
 					// engine's concrete mode (same SSA, every input and clock reading fixed)
-					rf.Confirm = "engine-concrete (clock readings cannot be forced natively)"
+					rf.Confirm = "engine-concrete (stubbed clock/syscall values cannot be forced on the native build)"
 					writeJSON(path, rf)
 					fmt.Printf("VIOLATION property=%s replay=%s\n", prop, path)
 					fmt.Printf("  label=%s job=%s msg=%s (confirmed in engine concrete mode)\n", l, j.Name, v.Msg)
@@ -182,7 +182,7 @@ func finishCheck(prop, tier string, seed int64, spec PropSpec, results []jobResu
 			}
 		}
 		// validate sampled passing paths natively (observables and absence of assertion failures)
-		if len(s.Samples) > 0 {
+		if len(s.Samples) > 0 && !j.NoNative {
 			n, bad := getReplayer(j.Dir).validateSamples(prop, j, s.Samples, known)
 			validated += n
 			for _, b := range bad {
@@ -307,6 +307,7 @@ func confirmConcrete(eng *interp.Engine, cfg interp.Config, v interp.Violation, 
 	c := cfg
 	c.Concrete = v.Model
 	c.ConcreteChoices = v.Choices
+	c.ConcreteSched = interp.SchedChoices(v.Path)
 	c.Workers = 1
 	c.Samples = 0
 	c.Deadline = time.Now().Add(60 * time.Second)
